@@ -53,6 +53,10 @@ class RestoreArgParser:
         else:
             path = os.path.normpath(
                 os.path.join(curdir + os.path.sep, parsed.path))
+            if path.startswith('//'):
+                # POSIX normpath keeps a leading double slash ('//' when
+                # curdir is '/'), which would match no original location
+                path = '/' + path.lstrip('/')
 
             return RunRestoreArgs(path=path,
                                   sort=cast(Sort, {
